@@ -20,7 +20,7 @@ from __future__ import annotations
 
 import ast
 
-from .. import ctx
+from .. import ctx, paths
 from ..cfg import CFG
 from ..flow import yields_in
 from ..pattern import canon, canon_all
@@ -428,6 +428,25 @@ def q3(run, L):
 
 
 # ------------------------------------------------------------------------------ Q4
+class _NoColour(ast.NodeTransformer):
+    def visit_JoinedStr(self, node):
+        self.generic_visit(node)
+        node.values = [v for v in node.values if not (isinstance(v, ast.FormattedValue) and v.format_spec is None
+                                                      and norm(v.value).split(".")[0] in ("Fore", "Style", "Back"))]
+        return node
+
+
+def row_text(e):
+    e = _NoColour().visit(paths.clone(e))
+    ast.fix_missing_locations(e)
+    return paths.text(paths.flatten(e))
+
+
+def hex_part(t):
+    i = t.find("binascii")
+    return t[i:i + 40] if i >= 0 else ""
+
+
 def q4(run, project):
     mod = project.module(PRETTY)
     fmt = mod.functions().get("format")
@@ -437,42 +456,67 @@ def q4(run, project):
     if None in (fmt, pr, pa, um):
         raise AnalysisError("Q4: pretty helpers not found")
     p = [a.arg for a in fmt.args.args]
-    asg = {norm(s.targets[0]): s.value for s in walk_no_nested(fmt) if isinstance(s, ast.Assign)}
-    run.ob("Q4", "layer" in asg and norm(asg["layer"]) == f"len({p[1]}) - 1", "indentation = depth of the path",
-           f"layer is `{norm(asg.get('layer')) if 'layer' in asg else None}`", module=mod, node=fmt, func="format", construct="indent depth")
-    ind = asg.get("indent")
-    run.ob("Q4", ind is not None and "* layer" in norm(ind), "one indent unit per level", f"indent is `{norm(ind) if ind is not None else None}`",
-           module=mod, node=fmt, func="format", construct="indent string")
-    nm = [v for k, v in asg.items() if k == "name"]
-    run.ob("Q4", bool(nm) and f"{p[1]}[-1]" in norm(nm[0]), "row label is the last path node", "row label changed", module=mod, node=fmt,
-           func="format", construct="row label")
-    hx = [s for s in walk_no_nested(fmt) if isinstance(s, ast.If) and norm(s.test) == p[2]]
-    ok = len(hx) == 1 and [norm(x) for x in hx[0].body] == [f"{p[2]} = binascii.hexlify({p[2]}).decode()"] and \
-        [norm(x) for x in hx[0].orelse] == [f"{p[2]} = ''"]
-    run.ob("Q4", ok, "hex column = hexlify(bytes) or empty", "hex column construction changed", module=mod, node=fmt, func="format",
-           construct="hex column")
-    val = [s for s in walk_no_nested(fmt) if isinstance(s, ast.Assign) and norm(s.targets[0]) == p[3]]
-    ok = len(val) == 1 and isinstance(val[0].value, ast.IfExp) and norm(val[0].value.test) == f"{p[3]} is ..." and \
-        norm(val[0].value.body) == "''" and f"{{{p[3]}}}" in norm(val[0].value.orelse)
-    run.ob("Q4", ok, "value column = the value's text form (empty for structural events)", "value column changed", module=mod, node=fmt,
-           func="format", construct="value column")
-    rets = [s for s in walk_no_nested(fmt) if isinstance(s, ast.Return)]
-    run.ob("Q4", len(rets) == 1 and norm(rets[0].value) == "result", "format returns the assembled row", "format return changed",
-           module=mod, node=fmt, func="format", construct="format return")
-    # pretty(): data = b"".join(binary_unmarshal((event,))) ; value = f"{event.value}" ; one row
+    # the row, as a function of the two column conditions (colour codes are not part of the row shape)
+    T, P, B, V = p
+    indent = f"{{'|   ' * (len({P}) - 1)}}"
+    want_row = {}
+    for has_bin in (True, False):
+        for structural in (True, False):
+            hexs = f"{{binascii.hexlify({B}).decode(): <20}}" if has_bin else "{'': <20}"
+            val = "" if structural else f"{{{V}}}"
+            src = f"f\"{{f'{{get_type_name({T})}}': <50}} {{f'{indent}.{{{P}[-1]}}': <64}} {hexs} {val}\""
+            want_row[(has_bin, structural)] = row_text(paths.pattern_expr(src))
+    fps = paths.summarise(mod, fmt)
+    run.require(len(fps) >= 4, "Q4: fewer than four paths through format()")
+    for fp in fps:
+        hb, st_ = fp.truth(f"truthy {B}"), fp.truth(f"{V} is ...")
+        label = " & ".join(("" if v else "not ") + a_ for a_, v, _ in fp.cond) or "always"
+        if hb is None or st_ is None or fp.end != "return":
+            run.ob("Q4", False, f"format [{label}]", "the row no longer depends on `binary` being empty and `value is ...` alone",
+                   module=mod, node=fp.node or fmt, func="format", construct="format return")
+            continue
+        got = row_text(fp.value)
+        want = want_row[(hb, st_)]
+        if got != want:
+            # which column differs?
+            kind, why = "format return", "format return changed"
+            alt_hex = want_row[(not hb, st_)]
+            alt_val = want_row[(hb, not st_)]
+            if got == alt_hex or hex_part(got) != hex_part(want):
+                kind, why = "hex column", "hex column construction changed (hex column = hexlify(bytes) or empty)"
+            elif got == alt_val or got.rsplit(" ", 1)[-1] != want.rsplit(" ", 1)[-1]:
+                kind, why = "value column", "value column changed (the value's text form, empty for structural events)"
+            elif "len(" not in got or f"len({P}) - 1" not in got:
+                kind, why = "indent depth", "indentation is no longer the depth of the path"
+            elif f"{P}[-1]" not in got:
+                kind, why = "row label", "row label changed"
+            run.ob("Q4", False, f"format [{label}]", f"{why}: row is `{got}`, expected `{want}`", module=mod, node=fp.node or fmt,
+                   func="format", construct=kind)
+        else:
+            run.ob("Q4", True, f"format [{label}]: type | indent*depth .label | hex | value")
+    # pretty(): one info row, or one field row whose hex column is the binary re-encoding of exactly this event
     e = pr.args.args[0].arg
-    txt = norm(pr)
-    ok = f"data = b''.join(binary_unmarshal(({e},)))" in txt and f"yield format({e}.type, {e}.path, data, value)" in txt and \
-        f"value = f'{{{e}.value}}'" in txt
-    run.ob("Q4", ok, "pretty(): hex column is the binary re-encoding of exactly this event; value is its text form",
-           "pretty() row construction changed", module=mod, node=pr, func="pretty", construct="pretty row")
-    ys = [y for y in walk_no_nested(pr) if isinstance(y, (ast.Yield, ast.YieldFrom))]
-    run.ob("Q4", len(ys) == 2, "pretty(): exactly one row per event (info row or field row)", f"{len(ys)} yields", module=mod,
-           node=pr, func="pretty", construct="pretty yields")
-    info = [s for s in pr.body if isinstance(s, ast.If) and norm(s.test) == f"not isinstance({e}, MarshalEvent)"]
-    ok = len(info) == 1 and [norm(x) for x in info[0].body] == [f"yield format_info({e})", "return"]
-    run.ob("Q4", ok, "warnings are shown as exactly one row", "info-event row changed", module=mod, node=pr, func="pretty",
-           construct="pretty info row")
+    M, E3 = f"isinstance({e}, MarshalEvent)", f"{e}.value is ..."
+    pps = paths.summarise(mod, pr)
+    for pp in pps:
+        label = " & ".join(("" if v else "not ") + a_ for a_, v, _ in pp.cond) or "always"
+        m = pp.truth(M)
+        fx = pp.effect_texts()
+        if m is None:
+            run.ob("Q4", False, f"pretty [{label}]", "rows no longer depend on `isinstance(event, MarshalEvent)`", module=mod,
+                   node=pp.node or pr, func="pretty", construct="pretty info row")
+        elif not m:
+            run.ob("Q4", fx == [("yield", f"format_info({e})")], "warnings are shown as exactly one row", f"info-event row changed: {fx}",
+                   module=mod, node=pp.node or pr, func="pretty", construct="pretty info row")
+        else:
+            st_ = pp.truth(E3)
+            val = "''" if st_ else f"f'{{{e}.value}}'"
+            want = [("yield", f"format({e}.type, {e}.path, b''.join(binary_unmarshal(({e},))), {val})")]
+            alt = [("yield", f"format({e}.type, {e}.path, b''.join(binary_unmarshal(({e},))), str({e}.value))")]
+            run.ob("Q4", st_ is not None and (fx == want or (not st_ and fx == alt)),
+                   "pretty(): hex column is the binary re-encoding of exactly this event; value is its text form",
+                   f"pretty() row construction changed: [{label}] gives {fx}", module=mod, node=pp.node or pr, func="pretty",
+                   construct="pretty row" if len(fx) == 1 else "pretty yields")
     # attribute rows
     ae = pa.args.args[0].arg
     rows = [y for y in walk_no_nested(pa) if isinstance(y, ast.Yield) and isinstance(y.value, ast.Call) and call_name(y.value) == "format"]
